@@ -6016,8 +6016,16 @@ int32 psX509AuthenticateCert(psPool_t *pool, psX509Cert_t *subjectCert,
                 Valid CA to load: i2 or root
                 Invalid CA to load: l or i1
              */
+            /* "A copy" means the same certificate: the same to-be-signed
+               contents (compared through the digest computed at parse time)
+               under the same signature.  The signature bytes alone are
+               public and can be pasted onto any other certificate. */
             if (sc->signatureLen == ic->signatureLen
-                && memcmpct(sc->signature, ic->signature, sc->signatureLen) == 0)
+                && memcmpct(sc->signature, ic->signature, sc->signatureLen) == 0
+                && sc->sigAlgorithm == ic->sigAlgorithm
+                && sc->sigHashLen > 0
+                && sc->sigHashLen == ic->sigHashLen
+                && memcmpct(sc->sigHash, ic->sigHash, sc->sigHashLen) == 0)
             {
                 /* Skip some of the signature and issuer checks */
                 goto L_INTERMEDIATE_ROOT;
